@@ -197,4 +197,46 @@ def traceW (w : World) : List (Nat × Ev) → Option (List (Nat × Obs))
     | none => none
     | some w' => (traceW w' es).map (fun r => (t, obsOf (w' t) e) :: r)
 
+/-! ### manager objects that are built before they are entered
+
+`mgr = dependency(d)` only creates an object (for `contextlib.contextmanager` the generator has not even
+started): nothing happens to the context and nothing is read from it.  `set(d)` — and with it the capture of the
+value to restore — happens when the manager is ENTERED: by `with mgr:`, by `mgr.__enter__()`, by
+`ExitStack.enter_context(mgr)`, or by calling a function decorated with `@dependency(d)` (the decorator re-creates
+the manager at each call).  Manager objects are ordinary Python objects: one built in one thread can be entered in
+another, so the store of built managers belongs to the whole world, not to a context. -/
+
+inductive EvM where
+  | base (e : Ev)
+  | build (m : Nat) (d : Code)   -- `mgr_m = dependency(d)`
+  | enterM (m : Nat)             -- deferred entry of `mgr_m`
+  deriving DecidableEq, Repr
+
+abbrev Store := List (Nat × Code)
+
+/-- a history with deferred entries is the history in which every `enterM m` is an `enter` with the code given when
+`m` was built, and every `build` is an observation only (`none`: a manager is entered that was never built) -/
+def resolveH (st : Store) : List EvM → Option (List Ev)
+  | [] => some []
+  | .base e :: es => (resolveH st es).map (fun r => e :: r)
+  | .build m d :: es => (resolveH ((m, d) :: st) es).map (fun r => Ev.get :: r)
+  | .enterM m :: es =>
+    match st.lookup m with
+    | none => none
+    | some d => (resolveH st es).map (fun r => Ev.enter d :: r)
+
+/-- the same on a schedule: the store is shared by all threads -/
+def resolve (st : Store) : List (Nat × EvM) → Option (List (Nat × Ev))
+  | [] => some []
+  | (t, .base e) :: es => (resolve st es).map (fun r => (t, e) :: r)
+  | (t, .build m d) :: es => (resolve ((m, d) :: st) es).map (fun r => (t, Ev.get) :: r)
+  | (t, .enterM m) :: es =>
+    match st.lookup m with
+    | none => none
+    | some d => (resolve st es).map (fun r => (t, Ev.enter d) :: r)
+
+/-- what the driver executes -/
+def traceWM (w : World) (es : List (Nat × EvM)) : Option (List (Nat × Obs)) :=
+  (resolve [] es).bind (traceW w)
+
 end Pun.DepCtx
